@@ -558,6 +558,10 @@ class Ctx(object):
             tol = self.opts.get('float_tol', 1e-7)
             with np.errstate(invalid='ignore'):
                 bad = ~(np.abs(a - b) <= tol * scale)
+                rel = self.opts.get('float_rel')
+                if rel:
+                    # elementwise relative comparison (values of tiny magnitude)
+                    bad = bad | ~(np.abs(a - b) <= rel * np.abs(b) + 1e-300)
                 # a non-finite ORACLE value (overflow in the reference) decides nothing
                 bad = bad & np.isfinite(b)
             if np.any(bad):
@@ -571,7 +575,12 @@ class Ctx(object):
             self.facts.append(('%s: shape %s == %s' % (label, la.shape, ra.shape), False))
             return
         for idx in np.ndindex(*la.shape):
-            l, r = S.lift(la[idx]), S.lift(ra[idx])
+            le, re_ = la[idx], ra[idx]
+            while isinstance(le, np.ndarray) and le.ndim == 0:
+                le = le.item()
+            while isinstance(re_, np.ndarray) and re_.ndim == 0:
+                re_ = re_.item()
+            l, r = S.lift(le), S.lift(re_)
             if l is None or r is None:
                 raise S.SymError('non-numeric value in obligation %s%s: %r / %r' % (label, idx, la[idx], ra[idx]))
             lab = '%s%s' % (label, list(idx) if idx else '')
